@@ -160,6 +160,24 @@ func registerIntrinsics(P *Program) {
 		fr.m.yield("symapi.Yield")
 		return nil
 	}
+	in[sa+"Deterministic"] = func(fr *frame, args []Value) Value {
+		m := fr.m
+		if m.threads != nil {
+			m.threads.settling = args[0].(*Term).IsTrue()
+		}
+		return nil
+	}
+	in[sa+"Settle"] = func(fr *frame, args []Value) Value {
+		m := fr.m
+		if m.threads == nil {
+			return nil
+		}
+		save := m.threads.settling
+		m.threads.settling = true
+		m.threads.quiesceWait(m)
+		m.threads.settling = save
+		return nil
+	}
 	in[sa+"Quiesce"] = func(fr *frame, args []Value) Value {
 		m := fr.m
 		if m.threads == nil {
